@@ -5,6 +5,11 @@ source the sink receiving most of it.
 All statements are about `ColoVerif.Transp` (Model/Transp.lean, Model/TranspCert.lean), the
 definitions `drv_C13` executes against the C++ (`harness/h_C13.cpp`).
 
+Float costs: `costsFromFloats_bound` (the fixed-point scaling of the `float` constructor, modelled operation
+by operation with explicit binary64 rounding in Model/TranspFloat.lean, always produces costs within the
+bound the solver needs), `ssp_optimal_float`, `float_optimality_gap` (what optimality in the scaled integer
+costs means for the original real-valued costs), `float_precondition_needed`.
+
 Everything is proved for all inputs of any size: `ssp_optimal` (the solver returns a feasible plan of
 minimum cost on every well-formed problem), `ssp_terminates`, `ssp_feasible`, `ssp_assignment`,
 `toAssignment_argmax`, `increaseCapacity_covers`, `cert_optimal`.  Helper lemmas:
@@ -16,6 +21,7 @@ import ColoVerif.Proofs.TranspSsp
 import ColoVerif.Proofs.TranspSsp2Nonneg
 import ColoVerif.Proofs.TranspSsp2Solve
 import ColoVerif.Proofs.TranspSsp2Witness
+import ColoVerif.Proofs.TranspFloatGap
 
 namespace ColoVerif.C13
 open ColoVerif.Transp
@@ -221,5 +227,101 @@ theorem ssp_optimal_of_cert (p q : Problem) (h : solve p = .ok q) (hcert : certi
 /-- non-vacuity of `ssp_optimal_of_cert` (2 sinks × 1 source, evaluated by the kernel) -/
 example : ∃ p q, solve p = .ok q ∧ certifies q q.allocations = true :=
   ⟨smallPb, _, small_solve, small_cert⟩
+
+/-! ### float costs
+
+`TransportationProblem(capacities, demands, const std::vector<std::vector<float>>& costs)` scales the costs
+to fixed point (`costsFromIntegers`); `costsFromFloats` (Model/TranspFloat.lean) is that scaling over exact
+rationals with every binary64 rounding explicit, and is what `drv_C13` executes against the C++ entry by
+entry.  Its domain `floatCostsOk` (decidable; the driver prints `fdomain ok`): at most `2^31` sinks, every cost
+`≤ FLT_MAX` and `≥ −nbSinks·maxVal` with `maxVal = max(1e-8f, largest cost)` — in particular every finite
+non-negative matrix (`float_nonneg_in_domain`).  NaN / ±inf are outside (no rational counterpart). -/
+
+/-- every finite non-negative cost matrix (values need not even be `float`s) is in the domain -/
+theorem float_nonneg_in_domain (fc : List (List Rat)) (hn : fc.length ≤ 2147483648)
+    (h : ∀ r, r ∈ fc → ∀ c, c ∈ r → 0 ≤ c ∧ c ≤ fcFltMax) : floatCostsOk fc = true :=
+  (floatCostsOk_iff fc).mpr (floatCostsOk_of_nonneg fc hn h)
+
+/-- **The fixed-point scaling respects the solver's cost bound, for all float inputs of the domain.**
+Every stored cost satisfies `|cost| ≤ 2^29` (so the conversion `double → int` is defined and
+`3·|cost| < INT_MAX`), i.e. `costBoundOk` — the hypothesis of `ssp_optimal` that used to be checked per
+instance — holds for the problem built by the float constructor.  (All three binary64 divisions of
+`conversionFactor_` stay in the normal range, relative error `2^-53` each; `n·maxVal·factor ≤
+INT_MAX·(1+2^-53)²/4 < 2^29`; rounding is monotone and exact on `±2^29`.) -/
+theorem costsFromFloats_bound (caps dems : List Int) (fc : List (List Rat)) (h : floatCostsOk fc = true) :
+    costBoundOk (Problem.makeFloat caps dems fc) = true ∧
+    ∀ i j, -536870912 ≤ (Problem.makeFloat caps dems fc).cost i j ∧
+      (Problem.makeFloat caps dems fc).cost i j ≤ 536870912 := by
+  have hf := (floatCostsOk_iff fc).mp h
+  refine ⟨(costBoundOk_iff _).mpr (costsFromFloats_costBound caps dems fc hf), fun i j => ?_⟩
+  have hcost : (Problem.makeFloat caps dems fc).cost i j = get2 (costsFromFloats fc) i j := rfl
+  rw [hcost]
+  by_cases hn1 : 1 ≤ fc.length
+  · obtain ⟨a, b, _⟩ := costsFromFloats_entry fc hf hn1 i j
+    exact ⟨a, b⟩
+  · have : fc = [] := List.length_eq_zero_iff.mp (by omega)
+    subst this
+    have : get2 (costsFromFloats []) i j = 0 := by simp [costsFromFloats, scaleRows, get2]
+    rw [this]; constructor <;> omega
+
+/-- non-vacuity: a 2 × 2 matrix with a zero, a tie-free non-dyadic spread and a negative entry -/
+example : floatCostsOk [[0, 1 / 3], [-(1 / 2), 1000000]] = true := by decide +kernel
+
+/-- **C13 for the float constructor, universally.**  For every cost matrix of the domain, if `check()`
+passes and the demand does not exceed the capacity, `solve()` on the problem built by the float constructor
+returns a feasible plan of minimum total cost w.r.t. the stored (scaled integer) costs. -/
+theorem ssp_optimal_float (caps dems : List Int) (fc : List (List Rat)) (hf : floatCostsOk fc = true)
+    (hc : (Problem.makeFloat caps dems fc).check = true) (hd : dems.sum ≤ caps.sum) :
+    ∃ q, solve (Problem.makeFloat caps dems fc) = .ok q ∧ q.capacities = caps ∧ q.demands = dems ∧
+      q.costs = costsFromFloats fc ∧ Feasible (Problem.makeFloat caps dems fc) q.allocations ∧
+      ∀ y, Feasible (Problem.makeFloat caps dems fc) y →
+        costOf (Problem.makeFloat caps dems fc) q.allocations ≤ costOf (Problem.makeFloat caps dems fc) y := by
+  obtain ⟨q, hq, h1, h2, h3, h4, _, h6⟩ :=
+    ssp_optimal (Problem.makeFloat caps dems fc) ⟨hc, hd, (costsFromFloats_bound caps dems fc hf).1⟩
+  exact ⟨q, hq, h1, h2, h3, h4, h6⟩
+
+/-- non-vacuity of `ssp_optimal_float`'s hypotheses (2 sinks × 2 sources) -/
+example : floatCostsOk [[0, 1 / 3], [1 / 2, 1 / 4]] = true ∧
+    (Problem.makeFloat [2, 2] [1, 2] [[0, 1 / 3], [1 / 2, 1 / 4]]).check = true := by decide +kernel
+
+/-- **Optimality in the scaled costs vs. the original real-valued costs.**  The plan returned by `solve()`
+is optimal for the stored integers `round(c·factor)`, not for the `c` themselves; each stored cost is within
+`δ = 1/2 + 2^-24` of `c·factor` (`1/2` from `std::round`, `2^-24` from the binary64 product of a value below
+`2^29`) and a feasible plan moves exactly `D = Σ demands` units.  Hence, in the exact real-valued objective
+`realCostOf = Σ c[i][j]·x[i][j]`, the returned plan is within `2·δ·D/factor` of *every* feasible plan, and,
+since `factor ≥ INT_MAX/(4·n·maxVal)·(1−2^-53)²`, within `2·D·(3/4)·(4·n·maxVal/INT_MAX)` — the tolerance the
+direct oracle of `harness/h_C13.cpp` applies against the long-double brute-force optimum.  The gap is a
+granularity effect only: it is at most `6·n/INT_MAX` of the trivial cost scale `D·maxVal`; plans whose real
+costs differ by less may be ranked either way. -/
+theorem float_optimality_gap (caps dems : List Int) (fc : List (List Rat)) (hf : floatCostsOk fc = true)
+    (hn1 : 1 ≤ fc.length) (hc : (Problem.makeFloat caps dems fc).check = true) (hd : dems.sum ≤ caps.sum) :
+    ∃ q, solve (Problem.makeFloat caps dems fc) = .ok q ∧
+      ∀ y, Feasible (Problem.makeFloat caps dems fc) y →
+        realCostOf fc caps.length dems.length q.allocations
+          ≤ realCostOf fc caps.length dems.length y
+            + 2 * fcDelta * ((dems.sum : Int) : Rat) / fcFactor (fcMaxVal fc) fc.length ∧
+        realCostOf fc caps.length dems.length q.allocations
+          ≤ realCostOf fc caps.length dems.length y
+            + 2 * ((dems.sum : Int) : Rat) * (3 / 4) * (4 * (fc.length : Rat) * fcMaxVal fc / 2147483647) := by
+  obtain ⟨q, hq, _, _, _, hfe, hopt⟩ := ssp_optimal_float caps dems fc hf hc hd
+  have hF := (floatCostsOk_iff fc).mp hf
+  have hD : 0 ≤ dems.sum := by
+    have hall : ∀ d, d ∈ dems → 0 < d := by
+      have h1 : (Problem.makeFloat caps dems fc).demands = dems := rfl
+      simp only [Problem.check, Bool.and_eq_true, List.all_eq_true, decide_eq_true_eq, h1] at hc
+      exact hc.1.1.1.1.1
+    exact int_list_sum_nonneg dems (fun d hd' => le_of_lt (hall d hd'))
+  refine ⟨q, hq, fun y hy => ⟨?_, ?_⟩⟩
+  · exact float_gap caps dems fc hF hn1 _ y hfe hy (hopt y hy)
+  · exact float_gap_ideal caps dems fc hF hn1 hD _ y hfe hy (hopt y hy)
+
+/-- **The lower bound on the costs cannot be dropped.**  `maxVal` ignores negative costs, so a finite
+negative cost of large magnitude is scaled beyond the solver's bound: for the 1 × 2 matrix `[[1, −2]]`
+(`maxVal = 1`, factor `INT_MAX/4`) the stored cost of `−2` is `−1073741824`, `3·|cost| > INT_MAX`.
+(The conversion to `int` is still defined there; it becomes undefined from `−4·nbSinks·maxVal` on.) -/
+theorem float_precondition_needed :
+    ∃ fc : List (List Rat), (∀ r, r ∈ fc → ∀ c, c ∈ r → -fcFltMax ≤ c ∧ c ≤ fcFltMax) ∧
+      floatCostsOk fc = false ∧ costBoundOk (Problem.makeFloat [2] [1, 1] fc) = false :=
+  ⟨[[1, -2]], by decide +kernel, by decide +kernel, by decide +kernel⟩
 
 end ColoVerif.C13
